@@ -39,6 +39,24 @@ class ImplWorld:
     def start_unify(self, lhs, rhs, under=None):
         return {'gen': iter(impl.engine.unify(self.term(lhs), self.term(rhs))), 'done': False}
 
+    def start_via_variable(self, goal):
+        """goal = builtin(Arg): Arg reaches the builtin in a variable G that is bound by a unification
+        of the caller's; the handle keeps that unification so that it can be ended (release) while the
+        enumeration is still suspended - the enumeration was asked for the goal G stood for when it was made"""
+        g = self.yp.variable()
+        u = iter(impl.engine.unify(g, self.term(goal[2][0])))
+        next(u)
+        return {'gen': self.yp.query(goal[1], [g]), 'done': False, 'goalvar': g, 'unifiers': [u]}
+
+    def release(self, h, rebind=False):
+        for u in h['unifiers']:
+            u.close()
+        h['unifiers'] = []
+        if rebind:
+            u = iter(impl.engine.unify(h['goalvar'], self.yp.functor('other', [self.yp.variable(), self.yp.variable()])))
+            next(u)
+            h['unifiers'] = [u]
+
     def step(self, h):
         """-> True if an answer was produced, False if exhausted"""
         if h['done']:
@@ -53,6 +71,8 @@ class ImplWorld:
     def close(self, h):
         h['done'] = True
         h['gen'].close()
+        for u in h.get('unifiers', ()):
+            u.close()
 
     def observe(self, terms, h=None):
         return impl.observe([self.term(t) for t in terms])
@@ -78,6 +98,12 @@ class RefWorld:
     def start(self, goal, under=None):
         env = under['env'] if under is not None and under.get('env') is not None else {}
         return {'gen': self.ref.iter_env(self.term(goal), env), 'env': None, 'done': False, 'base': env}
+
+    def start_via_variable(self, goal):
+        return self.start(goal)
+
+    def release(self, h, rebind=False):
+        pass
 
     def start_unify(self, lhs, rhs, under=None):
         env = under['env'] if under is not None and under.get('env') is not None else {}
